@@ -178,7 +178,10 @@ TrialDirection ==
              s == SuccsIn(log, LogIdx) + (IF ok THEN 1 ELSE 0)
              f == FailsIn(log, LogIdx) + (IF ok THEN 0 ELSE 1) IN
          IF Cfg.sthr # 0 THEN (br'.st = "closed" <=> s >= Cfg.sthr)
-         ELSE IF Cfg.frate # 0 THEN (br'.st = "open" <=> Pct(f, s + f) >= Cfg.frate)
+         \* (rates are whole percents, rounded: a trial window such as 3 failures + 5 successes against a threshold of 38 meets BOTH
+         \*  "failure rate >= 38" (37.5 -> 38) and "success rate > 62" (62.5 -> 63); the statement does not say which wins: either)
+         ELSE IF Cfg.frate # 0 THEN (IF Pct(f, s + f) >= Cfg.frate /\ Pct(s, s + f) > 100 - Cfg.frate THEN TRUE
+                                     ELSE (br'.st = "open" <=> Pct(f, s + f) >= Cfg.frate))
          ELSE (br'.st = "open" <=> f >= Cfg.fthr) ]_vars
 
 \* half-open admission: never more outstanding trial permits than the capacity when every permit is paired
